@@ -163,7 +163,7 @@ func VH_C06_two_handles() {
 
 // C08 on the real unix pager: a writer grows the file after the handle mapped
 // it; the pages added by that commit must be readable in the next transaction.
-//verif:prop C08
+//verif:prop C08,C07,C06
 //verif:witnesses 4
 //verif:bounds file of 1 page at open (empty schema); a commit adds a table whose root is the new page 2 (row value symbolic) and bumps the counters; real filePager over the ghost file
 func VH_C08_growth() {
@@ -204,7 +204,12 @@ func VH_C08_growth() {
 		verifNoErr(err, "pages added by the commit are readable")
 		verifAssert(len(got) == 1 && got[0] == v, "the committed row is returned")
 	}
+	// C06/C07: however the page beyond the old mapping was obtained, the
+	// transaction still holds its SHARED lock (closing any descriptor of the file
+	// would have dropped it)
+	verifAssert(verifOwnLock(name, sharedFirstC, 510) == 1, "SHARED lock still held after reading pages beyond the size mapped at open")
 	d.RUnlock()
+	verifAssert(verifOwnLock(name, sharedFirstC, 510) == 0, "SHARED lock released by RUnlock")
 	d.Close()
 	verifReach("end")
 }
